@@ -446,7 +446,9 @@ prop('C16',
      design_ref='DESIGN.md section 4 C16')
 
 prop('C20',
-     category='other', units=[], kani=True, kani_required=True,
+     category='other', units=[], kani=True, kani_required=True, rt_always=True, rt_budget=10,
+     rt_what='the six real suites: Debug output scanned for encodings of the secret scalars, zeroize() leaves zero, drop path inspected in place (drop_in_place) and through a '
+             'global-allocator hook that scans every freed block for the secret coefficients (heap buffers, which CBMC cannot inspect after free)',
      technique='bounded/complete model checking (Kani/CBMC) of the real zeroize / drop / Debug code of frost-core at toy ciphersuites; no deductive contract can express "no copy is left in the '
                'storage it occupied" (Verus erases Drop and has no memory model for deallocated storage)',
      level_text='Kani harnesses over the REAL frost-core code monomorphised at toy ciphersuites: for every secret-bearing type (SigningKey, SigningShare, Nonce, SecretShare, KeyPackage, '
